@@ -3,7 +3,8 @@
     Everywhere: [ltb] is the heap's comparator (any strict weak order, e.g. the order of an external priority
     table), [d >= 1] the arity, [HeapInv] = no stored element is smaller than its parent. *)
 From Coq Require Import List Arith NArith Sorting.Permutation Sorting.Sorted.
-From TLXV Require Import Common.Order C13.DAry C13.DAryProofs C13.Addr C13.AddrProofs C13.Radix C13.RadixProofs.
+From TLXV Require Import Common.Order C13.DAry C13.DAryProofs C13.Addr C13.AddrProofs C13.AddrRemove C13.AddrHistory
+  C13.Radix C13.RadixProofs C13.RadixArith C13.RadixInv.
 Import ListNotations.
 
 (** ---------------------------------------------------------------- DAryHeap *)
@@ -20,7 +21,7 @@ Print Assumptions C13_dary_history_inv.
 Theorem C13_dary_top_min : forall (K : Type) (ltb : K -> K -> bool) (d : nat) (dflt : K),
   SWO ltb -> 1 <= d -> forall h x, HeapInv ltb d dflt h -> DAry.top h = Some x ->
   forall y, In y h -> leb ltb x y = true.
-Proof. exact @top_min. Qed.
+Proof. exact @DAryProofs.top_min. Qed.
 Print Assumptions C13_dary_top_min.
 
 (** push adds exactly the new element; pop removes exactly the top. *)
@@ -33,7 +34,7 @@ Print Assumptions C13_dary_push.
 Theorem C13_dary_pop : forall (K : Type) (ltb : K -> K -> bool) (d : nat) (dflt : K),
   SWO ltb -> 1 <= d -> forall h x, HeapInv ltb d dflt h -> DAry.top h = Some x ->
   HeapInv ltb d dflt (DAry.pop ltb d dflt h) /\ Permutation (x :: DAry.pop ltb d dflt h) h.
-Proof. exact @pop_ok. Qed.
+Proof. exact @DAryProofs.pop_ok. Qed.
 Print Assumptions C13_dary_pop.
 
 (** update_all / build_heap order ANY array (so they repair the heap after arbitrary priority changes) and keep
@@ -68,7 +69,7 @@ Proof. exact AddrProofs.push_ok. Qed.
 Print Assumptions C13_addr_push.
 
 Theorem C13_addr_clear : forall ltb d np, 1 <= d -> forall a, AInv ltb d np (Addr.clear np a).
-Proof. exact clear_ok. Qed.
+Proof. exact AddrProofs.clear_ok. Qed.
 Print Assumptions C13_addr_clear.
 
 (** The class's own sift loops and heapify act on heap_ exactly as DAryHeap's (so order, contents and minimality of
@@ -127,6 +128,49 @@ Theorem C13_fix_pos : forall (K : Type) (ltb : K -> K -> bool) d dflt, SWO ltb -
 Proof. exact @fix_pos_ok. Qed.
 Print Assumptions C13_fix_pos.
 
+(** remove(key) of a stored key: the full invariant is preserved and the contents are the old contents minus the key
+    (so contains() stays exact); pop()/extract_top() removes the top, which is a minimum. *)
+Theorem C13_addr_remove : forall ltb d np, SWO ltb -> 1 <= d -> forall a key,
+  AInv ltb d np a -> In key (fst a) ->
+  AInv ltb d np (Addr.remove ltb d np a key) /\
+  (forall x, In x (fst (Addr.remove ltb d np a key)) <-> In x (fst a) /\ x <> key) /\
+  Permutation (key :: fst (Addr.remove ltb d np a key)) (fst a).
+Proof. exact remove_ok. Qed.
+Print Assumptions C13_addr_remove.
+
+Theorem C13_addr_pop : forall ltb d np, SWO ltb -> 1 <= d -> forall a x,
+  AInv ltb d np a -> Addr.top a = Some x ->
+  AInv ltb d np (Addr.pop ltb d np a) /\ Permutation (x :: fst (Addr.pop ltb d np a)) (fst a) /\
+  (forall y, In y (fst a) -> leb ltb x y = true).
+Proof. exact AddrRemove.pop_ok. Qed.
+Print Assumptions C13_addr_pop.
+
+(** All histories.  [astep] interprets push / remove / pop / update (priority of one key changes, then update(key)) /
+    silent priority changes (ASet) / update_all / build_heap / clear over an external priority table (comparator =
+    order of the CURRENT table, optionally reversed); [avalid] is the executable form of the documented preconditions
+    (push: key not stored and <> not_present; remove: stored; pop: non-empty; build_heap: distinct keys; after an ASet
+    only ASet / update_all / build_heap / clear).  SInv st false = full invariant for the current table;
+    SInv st true = its handle part (between a silent change and the next update_all). *)
+Theorem C13_addr_history_inv : forall d np rv, 1 <= d -> forall ops st dirty,
+  SInv d np rv st dirty -> avalid d np rv st dirty ops = true ->
+  SInv d np rv (fold_left (astep d np rv) ops st) (final_dirty dirty ops).
+Proof. exact addr_history_inv. Qed.
+Print Assumptions C13_addr_history_inv.
+
+Theorem C13_addr_history_init : forall d np rv, 1 <= d -> SInv d np rv ainit false.
+Proof. exact SInv_init. Qed.
+Print Assumptions C13_addr_history_init.
+
+(** ... hence after every such history (all priority changes announced) contains() is exact and top() is a minimum. *)
+Theorem C13_addr_history_observations : forall d np rv, 1 <= d -> forall ops st dirty,
+  SInv d np rv st dirty -> avalid d np rv st dirty ops = true -> final_dirty dirty ops = false ->
+  let st' := fold_left (astep d np rv) ops st in
+  (forall key, Addr.contains np (snd st') key = true <-> In key (fst (snd st'))) /\
+  (forall x, Addr.top (snd st') = Some x ->
+     forall y, In y (fst (snd st')) -> leb (tab_ltb (fst st') rv) x y = true).
+Proof. exact addr_history_observations. Qed.
+Print Assumptions C13_addr_history_observations.
+
 (** build_heap (repaired heapify) over ANY previous contents: the new heap is ordered, holds exactly the new keys,
     and the handles describe exactly the new contents (this includes: heapify()'s max_key dominates every key, so
     handles_ is large enough).  update_all restores the full invariant after arbitrary priority changes. *)
@@ -179,12 +223,138 @@ Theorem C13_radix_shipped_row_wide : forall w rb x limit : N,
 Proof. exact shipped_row_wide. Qed.
 Print Assumptions C13_radix_shipped_row_wide.
 
-(* Not proved in Coq (kept as the goal):
-   - DAryAddressableIntHeap::remove(key) at the operation level: AInv a -> In key (fst a) ->
-       AInv (remove a key) /\ (forall x, In x (fst (remove a key)) <-> In x (fst a) /\ x <> key).
-     Proved parts: the direction choice + sift (C13_fix_pos) and the handle writes of both sift loops
-     (C13_addr_sift_up_handles / C13_addr_sift_down_handles); the swap-with-last bookkeeping is tied by correspondence.
-   - RadixInv -- every stored key has rank >= insertion_limit_ and lies in
-   bucket (bucket rank limit), mins_ and filled_ are exact -- is preserved by push/top/pop/swap_top_bucket/clear on
-   monotone histories, hence top() = minimum.  The radix heap model is tied to the code by the correspondence run
-   and checked there against a reference multiset on every case. *)
+Theorem C13_radix_bucket_shipped_refuted_16 :
+  exists x limit : N, (x < 2 ^ 16 /\ limit < 2 ^ 16 /\ num_buckets 16 3 <= shipped_row 16 3 x limit)%N.
+Proof. exact bucket_shipped_refuted_16. Qed.
+Print Assumptions C13_radix_bucket_shipped_refuted_16.
+
+(** Arithmetic of the (repaired) bucket map, for every radix 2^rb and unbounded keys; B rb = 2^rb.
+    Monotone in the key; a first-row bucket holds one key value; redistributing a bucket of a higher row against its
+    minimum m sends every element to a strictly smaller bucket; raising the limit to a key of a smaller bucket leaves
+    the keys of larger buckets where they are. *)
+Theorem C13_radix_bucket_mono : forall rb : N, (0 < rb)%N -> forall l x y : N, (l <= x -> x <= y ->
+  Radix.bucket rb x l <= Radix.bucket rb y l)%N.
+Proof. exact bucket_mono. Qed.
+Print Assumptions C13_radix_bucket_mono.
+
+Theorem C13_radix_bucket_row0_inj : forall rb : N, (0 < rb)%N -> forall l x y : N, (l <= x)%N -> (l <= y)%N ->
+  Radix.bucket rb x l = Radix.bucket rb y l -> (Radix.bucket rb x l < B rb)%N -> x = y.
+Proof. exact bucket_row0_inj. Qed.
+Print Assumptions C13_radix_bucket_row0_inj.
+
+Theorem C13_radix_bucket_redistribute : forall rb : N, (0 < rb)%N -> forall l m x : N, (l <= m)%N -> (m <= x)%N ->
+  Radix.bucket rb m l = Radix.bucket rb x l -> (B rb <= Radix.bucket rb x l)%N ->
+  (Radix.bucket rb x m < Radix.bucket rb x l)%N.
+Proof. exact bucket_redistribute. Qed.
+Print Assumptions C13_radix_bucket_redistribute.
+
+Theorem C13_radix_bucket_stable : forall rb : N, (0 < rb)%N -> forall l m y : N, (l <= m)%N -> (l <= y)%N ->
+  (Radix.bucket rb m l < Radix.bucket rb y l)%N -> (m < y)%N /\ Radix.bucket rb y m = Radix.bucket rb y l.
+Proof. exact bucket_stable. Qed.
+Print Assumptions C13_radix_bucket_stable.
+
+(** RadixInv.  RInv w sgn rb s fr: the three arrays have num_buckets entries; every value stored in bucket b has
+    insertion_limit <= rank < 2^w and bucket(rank, limit) = b; mins_[b] is a lower bound of bucket b and attained if it
+    is non-empty (an empty bucket has mins_ = max, except the current bucket, whose stale minimum is the one key of that
+    first-row bucket); filled_[b] <-> bucket b non-empty; current_bucket_ < Radix and all buckets below it are empty;
+    fr (ghost) = rank of the most recently extracted minimum, limit <= fr and current_bucket_ <= bucket(fr, limit).
+    Stored s u = u is in some bucket; contents s = all buckets concatenated; rk v = rank_of_int(key of v). *)
+Theorem C13_radix_init : forall w sgn rb, (0 < rb)%N -> (0 < w)%N -> RInv w sgn rb (rinit w rb) 0%N.
+Proof. exact rinit_inv. Qed.
+Print Assumptions C13_radix_init.
+
+(** push / emplace of a w-bit key whose rank is not below the frontier: invariant kept, the returned index is the
+    bucket of the key, exactly that value is added. *)
+Theorem C13_radix_push : forall w sgn rb, (0 < rb)%N -> (0 < w)%N -> forall s fr (v : N * nat),
+  RInv w sgn rb s fr -> (fst v < 2 ^ w)%N -> (fr <= rk w sgn v)%N ->
+  RInv w sgn rb (fst (Radix.push w sgn rb s v)) fr /\
+  snd (Radix.push w sgn rb s v) = bidx rb (rk w sgn v) (limit s) /\
+  Permutation (contents (fst (Radix.push w sgn rb s v))) (v :: contents s).
+Proof.
+  intros w sgn rb H1 H2 s fr v I Hv Hf. destruct (push_inv w sgn rb H1 H2 s fr v I Hv Hf) as (A & B & _).
+  split; [exact A|]. split; [exact B|]. exact (push_contents w sgn rb H1 H2 s fr v I Hv Hf).
+Qed.
+Print Assumptions C13_radix_push.
+
+(** reorganize_() on a non-empty heap (incl. the redistribution of the first non-empty bucket and the raised
+    insertion limit): invariant kept with the new frontier K, the current bucket is non-empty and holds exactly the
+    values of rank K, nothing is lost or duplicated. *)
+Theorem C13_radix_reorganize : forall w sgn rb, (0 < rb)%N -> (0 < w)%N -> forall s fr,
+  RInv w sgn rb s fr -> NonEmpty w rb s ->
+  exists K, RInv w sgn rb (reorganize w sgn rb s) K /\ Ready (reorganize w sgn rb s) /\
+    (forall v, In v (nth (cur (reorganize w sgn rb s)) (buckets (reorganize w sgn rb s)) []) -> rk w sgn v = K) /\
+    Permutation (concat (buckets (reorganize w sgn rb s))) (concat (buckets s)).
+Proof. exact reorganize_inv. Qed.
+Print Assumptions C13_radix_reorganize.
+
+(** top() returns a stored value whose rank is minimal among everything stored; contents unchanged. *)
+Theorem C13_radix_top_min : forall w sgn rb, (0 < rb)%N -> (0 < w)%N -> forall s fr,
+  RInv w sgn rb s fr -> NonEmpty w rb s ->
+  (exists v, snd (Radix.top w sgn rb s) = Some v /\ Stored w rb (fst (Radix.top w sgn rb s)) v /\
+     RInv w sgn rb (fst (Radix.top w sgn rb s)) (rk w sgn v) /\
+     (forall u, Stored w rb (fst (Radix.top w sgn rb s)) u -> (rk w sgn v <= rk w sgn u)%N)) /\
+  Permutation (contents (fst (Radix.top w sgn rb s))) (contents s).
+Proof.
+  intros w sgn rb H1 H2 s fr I NE. split; [exact (top_ok w sgn rb H1 H2 s fr I NE)|exact (top_contents w sgn rb H1 H2 s fr I NE)].
+Qed.
+Print Assumptions C13_radix_top_min.
+
+(** pop() removes exactly the value top() would return. *)
+Theorem C13_radix_pop : forall w sgn rb, (0 < rb)%N -> (0 < w)%N -> forall s fr,
+  RInv w sgn rb s fr -> NonEmpty w rb s ->
+  exists v, snd (Radix.top w sgn rb s) = Some v /\ RInv w sgn rb (Radix.pop w sgn rb s) (rk w sgn v) /\
+    Permutation (v :: contents (Radix.pop w sgn rb s)) (contents s).
+Proof.
+  intros w sgn rb H1 H2 s fr I NE. destruct (RadixInv.pop_ok w sgn rb H1 H2 s fr I NE) as (v & E & A & _).
+  destruct (pop_contents w sgn rb H1 H2 s fr I NE) as (v' & E' & P). exists v. split; [exact E|]. split; [exact A|].
+  rewrite E in E'. injection E' as <-. exact P.
+Qed.
+Print Assumptions C13_radix_pop.
+
+(** swap_top_bucket() hands out exactly the values of minimal rank K; everything that stays has rank > K. *)
+Theorem C13_radix_swap_top_bucket : forall w sgn rb, (0 < rb)%N -> (0 < w)%N -> forall s fr,
+  RInv w sgn rb s fr -> NonEmpty w rb s ->
+  exists K, RInv w sgn rb (fst (swap_top_bucket w sgn rb s)) K /\
+    snd (swap_top_bucket w sgn rb s) <> [] /\
+    (forall v, In v (snd (swap_top_bucket w sgn rb s)) -> rk w sgn v = K) /\
+    (forall u, Stored w rb (fst (swap_top_bucket w sgn rb s)) u -> (K < rk w sgn u)%N) /\
+    Permutation (snd (swap_top_bucket w sgn rb s) ++ contents (fst (swap_top_bucket w sgn rb s))) (contents s).
+Proof.
+  intros w sgn rb H1 H2 s fr I NE. destruct (swap_ok w sgn rb H1 H2 s fr I NE) as (K & A & _ & B & C & _ & D & _).
+  exists K. split; [exact A|]. split; [exact B|]. split; [exact C|]. split; [exact D|].
+  exact (swap_contents w sgn rb H1 H2 s fr I NE).
+Qed.
+Print Assumptions C13_radix_swap_top_bucket.
+
+(** peak_top_key() is the key of minimal rank. *)
+Theorem C13_radix_peak_top_key : forall w sgn rb, (0 < rb)%N -> (0 < w)%N -> forall s fr,
+  RInv w sgn rb s fr -> NonEmpty w rb s ->
+  (exists v, Stored w rb s v /\ rk w sgn v = rank_of_int w sgn (peak_top_key w sgn s)) /\
+  (forall u, Stored w rb s u -> (rank_of_int w sgn (peak_top_key w sgn s) <= rk w sgn u)%N).
+Proof. exact peak_ok. Qed.
+Print Assumptions C13_radix_peak_top_key.
+
+(** All monotone histories: [rvalid] = every pushed key is a w-bit pattern whose rank is not below the rank of the most
+    recently extracted minimum (0 after clear), and top / pop / swap_top_bucket / peak_top_key are called on a
+    non-empty heap only.  RadixInv holds after every such history (hence the per-state theorems above apply in every
+    reachable state: top is a minimum, pop / swap_top_bucket remove exactly the minimal values), and size() is the
+    number of stored values after every step. *)
+Theorem C13_radix_history_inv : forall w sgn rb, (0 < rb)%N -> (0 < w)%N -> forall ops s fr,
+  RInv w sgn rb s fr -> rvalid w sgn rb s fr ops = true ->
+  RInv w sgn rb (fst (rfinal w sgn rb s fr ops)) (snd (rfinal w sgn rb s fr ops)).
+Proof. exact radix_history_inv. Qed.
+Print Assumptions C13_radix_history_inv.
+
+Theorem C13_radix_size : forall w sgn rb, (0 < rb)%N -> (0 < w)%N -> forall s fr o,
+  RInv w sgn rb s fr -> SizeOK s ->
+  match o with
+  | RPush k _ => (k < 2 ^ w)%N /\ (fr <= rank_of_int w sgn k)%N
+  | RClear => True
+  | _ => NonEmpty w rb s
+  end -> SizeOK (fst (rstep w sgn rb s o)).
+Proof. exact rstep_size. Qed.
+Print Assumptions C13_radix_size.
+
+(* Outside the Coq model (tied by the correspondence run only): the BitArray tree behind filled_ (modelled by its
+   specification), std::vector, and the identification of rank order with the signed order of key_type
+   (IntegerRank's static_asserts; int_at_rank (rank_of_int k) = k is RadixProofs.int_at_rank_of_int). *)
